@@ -94,6 +94,10 @@ pub enum PendingSpec {
     DanglingWithList,
     /// The same, but the TLV list names only the further receipt, not the one in BMP 87.
     DanglingWithOtherList,
+    /// The dangling pre-authorisation carries the receipt number of the oldest *closed* transaction in
+    /// the terminal's ledger that is not this call's own (a terminal that started its numbering again
+    /// after an end-of-day); with none to reuse: like `Dangling`.
+    DanglingReusing,
 }
 
 #[derive(Clone, Debug, PartialEq, Eq, Serialize, Deserialize)]
@@ -319,6 +323,13 @@ pub struct PtSpec {
     /// currency (a client that refuses such a terminal sends none, which is fine).
     #[serde(default)]
     pub registration_currency: Option<u16>,
+    /// An aborted end-of-day names this receipt number in BMP 87 behind its result code.
+    #[serde(default)]
+    pub eod_abort_receipt: Option<u16>,
+    /// The status information of a reservation the terminal is going to abort carries that result code
+    /// in BMP 27 (instead of 00): the exchange still ends with the abort packet.
+    #[serde(default)]
+    pub status_shows_abort_code: bool,
 }
 
 // ---------------------------------------------------------------- state
@@ -1018,7 +1029,11 @@ impl PtConn {
                     out.push(plain(rc::status_info(&s)));
                 }
                 prints(&mut out, o.prints);
-                end(&mut out, o.end, Effect::None);
+                match (o.end, pt.spec.eod_abort_receipt) {
+                    // the long form of the refusal: it names a receipt (2.10.1 style)
+                    (EndSpec::Abort(c), Some(r)) => out.push(plain(rc::abort(c, rc::AbortExtra::Receipt(r)))),
+                    _ => end(&mut out, o.end, Effect::None),
+                }
             }
             (0x06, 0xc0) => {
                 // a retried read-card command of the same call sees the same card
@@ -1140,7 +1155,10 @@ impl PtConn {
                     let r = pt.issue_receipt();
                     receipt = Some(r);
                     pt.requests[req].offered_receipt = Some(r);
-                    let s = pt.status(amount, currency, Some(r));
+                    let mut s = pt.status(amount, currency, Some(r));
+                    if let (true, EndSpec::Abort(c)) = (pt.spec.status_shows_abort_code, o.end) {
+                        s.result_code = Some(c);
+                    }
                     out.push(plain(rc::status_info(&s)));
                     pt.requests[req].status_sent = Some(s);
                     if o.status == StatusMode::WithReceiptTwice {
@@ -1210,8 +1228,25 @@ impl PtConn {
                         }
                         PendingSpec::NoneFfff => rc::AbortExtra::NoneMarker,
                         PendingSpec::NoBmp => rc::AbortExtra::None,
-                        PendingSpec::Dangling | PendingSpec::DanglingAt(_) | PendingSpec::DanglingWithList | PendingSpec::DanglingWithOtherList => {
+                        PendingSpec::Dangling | PendingSpec::DanglingAt(_) | PendingSpec::DanglingWithList | PendingSpec::DanglingWithOtherList | PendingSpec::DanglingReusing => {
+                            let cur_op = pt.current_op;
+                            // (not the receipt this very call has just released / reversed)
+                            let own_now: Vec<u16> = pt
+                                .requests
+                                .iter()
+                                .filter(|r| r.op == cur_op)
+                                .filter_map(|r| r.pkt.as_ref())
+                                .filter(|p| matches!(p.cf, (0x06, 0x23) | (0x06, 0x25)))
+                                .filter_map(|p| p.get_bcd(0x87).map(|x| x as u16))
+                                .collect();
+                            let reusable = pt
+                                .ledger
+                                .values()
+                                .filter(|l| l.state != EntryState::Open && !l.dangling && !own_now.contains(&l.receipt))
+                                .map(|l| l.receipt)
+                                .min();
                             let r = match p {
+                                PendingSpec::DanglingReusing if reusable.is_some() => reusable.unwrap(),
                                 // (unless the ledger already knows that number: an earlier or current transaction)
                                 PendingSpec::DanglingAt(r) if !pt.ledger.contains_key(&r) => r,
                                 _ => pt.issue_receipt(),
@@ -1429,7 +1464,8 @@ pub fn bad_body_for(cf: (u8, u8), identity: bool) -> Vec<u8> {
         (0x80, 0x00) => rc::nack(0x9a),
         (0x06, 0x0f) if identity => rc::apdu(cf, &[0x31, 0x32, 0x33]),
         (0x06, 0x0f) => rc::apdu(cf, &[0x29]),
-        (0x04, 0x0f) => rc::apdu(cf, &[0x04, 0x00]),
+        // (the first field decodes, the second is cut short)
+        (0x04, 0x0f) => rc::apdu(cf, &[0x27, 0x00, 0x04, 0x00]),
         (0x06, 0xd3) => rc::apdu(cf, &[0x06, 0x05, 0x1f]),
         _ => rc::apdu(cf, &[]),
     }
